@@ -12,13 +12,18 @@ import (
 	"pgregory.net/rapid"
 )
 
-// Schema of the one collection. Every field kind of the design plus two counters.
+// Schema of the one collection: every field kind of the design plus a counter.
 // `tag` is a plain marker field that is never listed in encryptFields.
-var allFields = []string{"s", "s2", "i", "f", "bl", "j", "a", "pn", "pf", "tag"}
+//
+// The collection deliberately has fewer than 10 field ids (8 fields + _docID): with 10 or more,
+// heads.List scans "/d/<docID>/1" without a separator and field 1 sees the heads of fields 10..19
+// (a C13 finding with its own proposed fix), which would make field 1 inherit the key of another
+// field and spoil the unencrypted controls of this check.
+var allFields = []string{"s", "i", "f", "bl", "j", "a", "pn", "tag"}
 
 var fieldKind = map[string]string{
-	"s": "str", "s2": "str", "tag": "str", "i": "int", "f": "flt", "bl": "blob", "j": "json", "a": "arr",
-	"pn": "cint", "pf": "cflt",
+	"s": "str", "tag": "str", "i": "int", "f": "flt", "bl": "blob", "j": "json", "a": "arr",
+	"pn": "cint",
 }
 
 func sdl(branchable bool) string {
@@ -28,7 +33,6 @@ func sdl(branchable bool) string {
 	}
 	return `type Users` + dir + ` {
 		s: String
-		s2: String
 		tag: String
 		i: Int
 		f: Float
@@ -36,16 +40,15 @@ func sdl(branchable bool) string {
 		j: JSON
 		a: [String]
 		pn: Int @crdt(type: pncounter)
-		pf: Float @crdt(type: pncounter)
 	}`
 }
 
-func isCounter(f string) bool { return f == "pn" || f == "pf" }
+func isCounter(f string) bool { return f == "pn" }
 
 // Val is one concrete field value. The byte patterns by which it is searched
 // ("needles") are derived from it, never stored.
 type Val struct {
-	// K: str int flt blob json arr cint cflt null
+	// K: str int flt blob json arr cint null
 	K string `json:"k"`
 	// S: the string; hex of the blob
 	S string `json:"s,omitempty"`
@@ -174,20 +177,11 @@ func (g *valGen) make(field string, seed uint64, gql bool) Val {
 			}
 			return Val{K: "cint", I: v, Weak: true}
 		}
-		v := int64(m>>9 | 1<<55) // [2^55, 2^56): an 8-byte CBOR integer; 9 of them cannot overflow
-		v &= 1<<56 - 1
-		v |= 1 << 55
+		v := int64(m>>9 | 1<<55) // [2^55, 2^56): an 8-byte CBOR integer; 13 of them cannot overflow
 		if m&1 == 1 {
 			v = -v
 		}
 		return Val{K: "cint", I: v}
-	case "cflt":
-		// integer-valued in ±[2^48, 2^49): sums of up to 9 stay exact below 2^53
-		x := float64(int64(m>>16)&(1<<48-1) | 1<<48)
-		if m&1 == 1 {
-			x = -x
-		}
-		return Val{K: "cflt", U: math.Float64bits(x)}
 	}
 	panic("no kind for field " + field)
 }
@@ -213,8 +207,9 @@ func (v Val) needles() [][]byte {
 		binary.BigEndian.PutUint64(b[:], v.U)
 		return [][]byte{b[:]}
 	case "blob":
+		// whichever way the codec stores a blob: the raw bytes or their hex text
 		raw, _ := hex.DecodeString(v.S)
-		return [][]byte{raw}
+		return [][]byte{raw, []byte(v.S), []byte(strings.ToUpper(v.S))}
 	case "json", "arr":
 		out := [][]byte{}
 		for _, s := range v.L {
@@ -290,7 +285,7 @@ func contains(l []string, s string) bool {
 
 // encryptable lists the fields that may be named in encryptFields (tag stays plain on purpose:
 // every field-level document keeps at least one control needle).
-var encryptable = []string{"s", "s2", "i", "f", "bl", "j", "a", "pn", "pf"}
+var encryptable = []string{"s", "i", "f", "bl", "j", "a", "pn"}
 
 func (d DocSpec) encrypted(field string) bool {
 	switch d.Mode {
@@ -345,8 +340,19 @@ func drawCase(t *rapid.T, avoidDocLate, avoidFieldLate bool) Case {
 			}
 			d.Create = append(d.Create, FieldVal{F: f, V: g.make(f, seed("v:"+f), gql)})
 		}
-		if len(d.Create) == 0 {
-			d.Create = append(d.Create, FieldVal{F: "tag", V: g.make("tag", seed("v:tag"), gql)})
+		// at least one value, so that two documents of a case never have the same content (docID)
+		nonNull := false
+		for _, fv := range d.Create {
+			nonNull = nonNull || fv.V.K != "null"
+		}
+		if !nonNull {
+			kept := d.Create[:0]
+			for _, fv := range d.Create {
+				if fv.F != "tag" {
+					kept = append(kept, fv)
+				}
+			}
+			d.Create = append(kept, FieldVal{F: "tag", V: g.make("tag", seed("v:tag"), gql)})
 		}
 		if (d.Mode == "fields" || d.Mode == "both") && rapid.IntRange(0, 5).Draw(t, "deny") == 0 {
 			d.Deny = subset(t, "deny", d.EncFields, 50)
@@ -374,7 +380,7 @@ func drawCase(t *rapid.T, avoidDocLate, avoidFieldLate bool) Case {
 					nf--
 					continue
 				}
-				if gql && (fieldKind[f] == "flt" || fieldKind[f] == "cflt") {
+				if gql && fieldKind[f] == "flt" {
 					// the GraphQL update route re-parses its patch as JSON with a float parser that is
 					// not correctly rounded (a C13 matter): floats are written through the API only
 					f = "s"
